@@ -4,7 +4,7 @@ import os
 import re
 rows = {}
 for f in ("/verif/sweep-thorough/summary.txt", "/verif/sweep-thorough/rerun/summary.txt", "/verif/sweep-thorough/rerun2/summary.txt",
-          "/verif/sweep-thorough/rerun2b/summary.txt"):
+          "/verif/sweep-thorough/rerun2b/summary.txt", "/verif/sweep-thorough/rerun2c/summary.txt"):
     if os.path.exists(f):
         for line in open(f):
             m = re.match(r"(C\d+) thorough exit=(\d+) (\d+)s", line)
